@@ -613,8 +613,9 @@ class _StreamModel:
             env.add_eq(a, b)
         return env
 
-    def lose(self, env, why):
+    def lose(self, env, why, confused=True):
         g = env.ghost
+        g['confused'] = g.get('confused') or (why if confused else None)
         g['base'] = Lin.atom(fresh('stream offset'))
         g['regions'] = {}
         g['finds'] = ()
@@ -705,6 +706,8 @@ class _StreamModel:
                 g['regions'] = regs
                 g['srcnames'] = (g['srcnames'] | {t.id}) if (len(ps) == 1 and ps[0][0] == 'src') else (g['srcnames'] - {t.id})
             elif isinstance(t, (ast.Tuple, ast.List)):
+                if any(isinstance(x, ast.Attribute) and dotted(x) in (BUF, BLEN, BPOS) for x in ast.walk(t)):
+                    self.lose(env, 'unpacking assignment to a buffer field `%s` not understood' % short(s, 60))
                 names = {x.id for x in ast.walk(t) if isinstance(x, ast.Name)}
                 g['regions'] = {k: r for k, r in g['regions'].items() if k not in names}
                 g['srcnames'] = g['srcnames'] - names
@@ -773,7 +776,7 @@ class _StreamModel:
                 env.add_eq(env.eval(_E_BLEN), env.length(env.eval(_E_BUF), BUF))     # class invariant, the callee's own obligation (R1)
                 env.add_le(0, env.eval(_E_BPOS))
                 env.add_le(env.eval(_E_BPOS), env.eval(_E_BLEN))
-                self.lose(env, 'the buffer is changed inside %s()' % fn.attr)
+                self.lose(env, 'the buffer is changed inside %s()' % fn.attr, confused=False)
             return Lin.atom(fresh('result of ' + short(call, 30)))
         return None
 
@@ -805,8 +808,8 @@ class _StreamModel:
         if self.mode == 'R6' and not self.quiet and cur is not None:
             for st in starts:
                 ok = env.prove_le(cur, st)
-                if not ok and (st - cur).tainted():
-                    self.unknown('; '.join(env.notes[-2:]))
+                if not ok and ((st - cur).tainted() or g.get('confused')):
+                    self.unknown(g.get('confused') or '; '.join(env.notes[-2:]))
                     continue
                 self.v.note(self.f, 'search @%s' % unparse(call), 'every search for the delimiter starts at or after the cursor (consumed bytes are never searched again)',
                             ok, call, 'the searched data starts %r byte(s) from the cursor, which is not provably >= 0' % (st - cur,), self.wit,
@@ -824,7 +827,8 @@ class _StreamModel:
             return
         g = env.ghost
         if len(ys) != 1 or isinstance(ys[0], ast.YieldFrom) or ys[0].value is None:
-            self.unknown('`%s`: yield shape not understood' % short(s, 60))
+            self.lose(env, '`%s`: yield shape not understood' % short(s, 60))
+            self.unknown(g['lost'])
             return
         val = ys[0].value
         ps = self.pieces(env, val)
@@ -842,9 +846,10 @@ class _StreamModel:
         elif len(ps) == 1 and ps[0][0] == 'buf' and ps[0][3]:
             lo, hi = ps[0][1], ps[0][2]
         else:
-            self.unknown('`%s`: the yielded value is not a tracked region of the buffer or an item of %s' % (short(s, 60), SOURCE_IT))
+            self.lose(env, '`%s`: the yielded value is not a tracked region of the buffer or an item of %s' % (short(s, 60), SOURCE_IT))
+            self.unknown(g['lost'])
             return
-        if g['lost']:
+        if g['lost']:       # positions are not known on the rest of this path: no verdict
             self.unknown(g['lost'])
             g['base'] = base_after
             g['prev'] = base_after + env.eval(_E_BPOS)
